@@ -8,6 +8,11 @@ the heartbeat (no WORKER TIMEOUT) and reachability through a unix socket are che
 master retired, so that the upgraded side alone answers and reports its ids from inside.  Two directed histories: a worker whose
 initgroups() is refused (EPERM) must not run application code with other groups than the configured user's, and a master that
 found ./gunicorn.conf.py by itself (no -c), was moved to another directory by a reload introducing `chdir`, and is then upgraded.
+Three short directed histories more: the whole server SIGKILLed and started again over the socket file it left behind (owner of the
+re-created unix socket, a process with the configured ids can connect to it); a master that is itself started with the configured
+group as its primary group (uid 0, supplementary groups of its own) with initgroups: initial and respawned workers; and
+./gunicorn.conf.py found by itself setting `chdir` from the start, then HUP, HUP, kill -9 of a worker: every reloaded generation and
+the respawned worker (judged through /proc even when the server hooks do not report them).
 """
 import grp
 import json
@@ -23,7 +28,10 @@ PROP = "C20"
 RULE = ("cell = (user spelling in {name, numeric string, int, absent}, group spelling in {name, numeric string, other group, "
         "absent}, initgroups on/off, worker class, bind tcp/unix, generation history initial -> kill -9 respawn -> HUP -> TTIN -> "
         "USR2 -> old master retired); directed histories: initgroups() refused with EPERM in the worker; configuration found as "
-        "./gunicorn.conf.py, reload introducing chdir, then USR2; distinct = cell tuple; every cell with a user or group is non-trivial")
+        "./gunicorn.conf.py, reload introducing chdir, then USR2; SIGKILL of the whole server and restart over the stale unix socket "
+        "file; master started with gid = configured gid and foreign supplementary groups, initgroups on: initial + respawn; "
+        "./gunicorn.conf.py setting chdir from the start: HUP, HUP, respawn; distinct = cell tuple; every cell with a user or group "
+        "is non-trivial")
 
 USERS = [("www-data", 33), ("33", 33), (33, 33), (None, None), ("nobody", 65534), ("54321", 54321), (54321, 54321)]   # 54321: no account
 GROUPS = [("nogroup", 65534), ("65534", 65534), ("www-data", 33), (None, None), (33, 33)]
@@ -148,9 +156,289 @@ def refused_initgroups_scenario(run, e4, sc):
         srv.cleanup()
 
 
+def settled_workers(srv, e4, first_seen, master=None, age=1.5):
+    """Workers that have reported post_worker_init, or - when the server hooks are not there to report (a generation that runs
+    without the configuration file) - have been children of the master for `age` seconds: long past the privilege drop."""
+    inited = set(e["wpid"] for e in srv.events() if e["kind"] == "post_worker_init")
+    out = []
+    now = time.monotonic()
+    for p in srv.worker_pids(master):
+        first_seen.setdefault(p, now)
+        if p in inited or now - first_seen[p] >= age:
+            out.append(p)
+    return out
+
+
+def connect_as(e4, addr, uid, gid):
+    """Can a process with exactly these ids (no supplementary groups) connect to the unix socket?  -> None | error text"""
+    rfd, wfd = os.pipe()
+    pid = os.fork()
+    if pid == 0:
+        out = b""
+        try:
+            os.close(rfd)
+            os.setgroups([])
+            os.setgid(gid)
+            os.setuid(uid)
+            try:
+                e4.connect(addr, 3).close()
+            except OSError as ex:
+                out = repr(ex).encode()
+            os.write(wfd, out or b"ok")
+        finally:
+            os._exit(0)
+    os.close(wfd)
+    data = os.read(rfd, 4096)
+    os.close(rfd)
+    os.waitpid(pid, 0)
+    return None if data == b"ok" else (data.decode(errors="replace") or "no report")
+
+
+def restart_after_kill_scenario(run, e4, sc):
+    """The whole server is SIGKILLed (the unix socket file stays behind) and started again on the same path: the new listening
+    socket must again belong to the configured user and group, and the workers of the restarted server run with the configured
+    ids like any others."""
+    v, info = [], {}
+    user, uid = sc["user"]
+    group, gid = sc["group"]
+    settings = {"graceful_timeout": 3, "timeout": 3, "user": user, "group": group, "umask": 0o007}
+    if sc["class"] == "gthread":
+        settings["threads"] = 2
+    first = e4.Server("c20", worker_class=sc["class"], workers=2, settings=settings, bind="unix")
+    nxt = None
+    try:
+        first.start()
+        if not first.wait_workers(2, 25):
+            return v, "workers did not boot: %s" % (first.stderr()[-300:] + first.error_log()[-300:]), info
+        path = first.sockpath
+        st = os.stat(path)
+        info["owner_first_start"] = (st.st_uid, st.st_gid, oct(st.st_mode & 0o777))
+        if (st.st_uid, st.st_gid) != (uid, gid):
+            v.append(("unix-socket-owner-wrong", "first start: socket file owned by %d:%d, configured %d:%d" % (st.st_uid, st.st_gid, uid, gid)))
+            return v, None, info
+        # an unclean stop: everybody dies at once, nobody unlinks the socket file
+        for p in [first.master_pid] + first.worker_pids():
+            first.signal(signal.SIGKILL, p)
+        if first.wait_exit(first.master_pid, 10) is None:
+            return v, "the master survived SIGKILL?", info
+        first.cleanup(keep=True)
+        if not os.path.exists(path):
+            return v, "the socket file did not stay behind", info
+        run.count("restarts_over_a_stale_socket_file")
+        nxt = e4.Server("c20", worker_class=sc["class"], workers=2, settings=settings, bind="unix")
+        nxt.sockpath = nxt.addr = path
+        nxt.bind = "unix:" + path
+        nxt.write_conf()
+        nxt.start()
+        w = nxt.wait_workers(2, 25)
+        if not w:
+            if not e4.alive(nxt.master_pid):
+                v.append(("server-does-not-start-over-stale-socket", "restart over the socket file of a killed server: the master exited: %s" % (
+                    (nxt.stderr()[-400:] + nxt.error_log()[-400:]).strip().splitlines()[-4:])))
+                return v, None, info
+            return v, "workers did not boot after the restart: %s" % nxt.error_log()[-300:], info
+        for p in w:
+            check_worker(run, e4, p, uid, gid, False, "restart-after-kill", v, True)
+        st = os.stat(path)
+        info["owner_after_restart"] = (st.st_uid, st.st_gid, oct(st.st_mode & 0o777))
+        if (st.st_uid, st.st_gid) != (uid, gid):
+            v.append(("unix-socket-owner-wrong/restart-after-kill",
+                      "the server was killed (SIGKILL, socket file left behind) and started again with user=%r group=%r umask=007: the new "
+                      "socket file is owned by %d:%d mode %o, configured %d:%d (first start: %s); connecting as %d:%d -> %s" % (
+                          user, group, st.st_uid, st.st_gid, st.st_mode & 0o777, uid, gid, info["owner_first_start"], uid, gid,
+                          connect_as(e4, path, uid, gid) or "ok")))
+            return v, None, info
+        run.count("unix_socket_owner_checks_after_restart")
+        err = connect_as(e4, path, uid, gid)
+        if err:
+            v.append(("unix-socket-unusable-for-configured-user/restart-after-kill", "socket %d:%d mode %o: a process running as %d:%d "
+                      "cannot connect: %s" % (st.st_uid, st.st_gid, st.st_mode & 0o777, uid, gid, err)))
+        else:
+            run.count("unix_socket_connects_as_configured_user")
+        r = e4.request(path, "/ids", timeout=5)
+        if r["outcome"] != "ok":
+            v.append(("worker-unreachable-after-privilege-drop", "after the restart: request -> %s %s" % (r["outcome"], r.get("err"))))
+        else:
+            judge_app_ids(run, json.loads(e4.body_of(r["data"])[:-4]), uid, gid, False, True, v, "restart-after-kill-")
+        return v, None, info
+    finally:
+        if nxt is not None:
+            nxt.cleanup()
+        first.cleanup()
+
+
+def master_in_group_scenario(run, e4, sc):
+    """The master itself is started with the configured group as its primary group (uid 0, gid = the service group, supplementary
+    groups of its own: `docker run --user 0:33`, a unit with Group= and no User=).  With initgroups the workers - initial and
+    respawned - must end up with exactly the configured user's supplementary groups, not the master's."""
+    v, info = [], {}
+    user, uid = sc["user"]
+    group, gid = sc["group"]
+    mgroups = [0, 1, 4]
+    settings = {"graceful_timeout": 3, "timeout": 3, "user": user, "group": group, "initgroups": True}
+    if sc["class"] == "gthread":
+        settings["threads"] = 2
+    srv = e4.Server("c20", worker_class=sc["class"], workers=2, settings=settings, bind=sc["bind"])
+
+    def as_group_member():
+        os.setgroups(mgroups)
+        os.setgid(gid)
+    srv.preexec = as_group_member
+    try:
+        srv.start()
+        master = srv.master_pid
+        w = srv.wait_workers(2, 25)
+        if not w:
+            if not e4.alive(master):
+                v.append(("server-does-not-start-with-this-identity", "master started as uid 0 gid %d groups %s with user=%r group=%r "
+                          "initgroups: exited during boot: %s" % (gid, mgroups, user, group,
+                                                                  (srv.stderr()[-400:] + srv.error_log()[-400:]).strip().splitlines()[-4:])))
+                return v, None, info
+            return v, "workers did not boot: %s" % srv.error_log()[-300:], info
+        m0 = e4.proc_ids(master)
+        info["master"] = m0
+        if not m0 or set(m0["Gid"]) != {gid} or set(m0["Uid"]) != {0} or sorted(m0["Groups"]) != mgroups:
+            return v, "the master does not run with the ids prepared for it: %s" % (m0,), info
+        run.count("masters_started_in_the_configured_group")
+        seen = set()
+
+        def check_all(gen):
+            inited = set(e["wpid"] for e in srv.events() if e["kind"] == "post_worker_init")
+            for p in srv.worker_pids():
+                if p not in seen and p in inited:
+                    seen.add(p)
+                    if check_worker(run, e4, p, uid, gid, True, gen, v, True):
+                        run.count("workers_of_a_master_in_the_configured_group")
+        check_all("initial/master-in-group")
+        for _ in range(4):
+            r = e4.request(srv.addr, "/ids", timeout=5)
+            if r["outcome"] != "ok":
+                v.append(("worker-unreachable-after-privilege-drop", "request over %s bind -> %s %s" % (sc["bind"], r["outcome"], r.get("err"))))
+                break
+            if not judge_app_ids(run, json.loads(e4.body_of(r["data"])[:-4]), uid, gid, True, True, v, "master-in-group-"):
+                break
+        victim = w[0]
+        os.kill(victim, signal.SIGKILL)
+        t0 = time.monotonic()
+        while time.monotonic() - t0 < 10:
+            ws = srv.worker_pids()
+            if victim not in ws and len(ws) == 2:
+                break
+            time.sleep(0.05)
+        srv.wait_workers(2, 10)
+        check_all("respawn/master-in-group")
+        m1 = e4.proc_ids(master)
+        if m1 and (m1["Uid"] != m0["Uid"] or m1["Gid"] != m0["Gid"] or sorted(m1["Groups"]) != mgroups):
+            v.append(("master-identity-changed", "master %d: %s, started as %s" % (master, m1, m0)))
+        elif m1:
+            run.count("master_identity_checks")
+        info["workers_checked"] = len(seen)
+        return v, None, info
+    finally:
+        srv.cleanup()
+
+
+def default_conf_chdir_scenario(run, e4, sc):
+    """user / group come from ./gunicorn.conf.py found in the start directory (no -c), and that file sets `chdir` to another
+    directory FROM THE START.  Then SIGHUP, SIGHUP again, and a worker of the last generation killed: the workers of every
+    reloaded generation, and the respawned one, run with the configured ids (judged through /proc once they report or have been
+    there for 1.5 s: a generation that lost its configuration file also lost the hooks that report)."""
+    v, info = [], {}
+    user, uid = sc["user"]
+    group, gid = sc["group"]
+    settings = {"graceful_timeout": 3, "timeout": 10, "user": user, "group": group}
+    if sc["initgroups"]:
+        settings["initgroups"] = True
+    if sc["class"] == "gthread":
+        settings["threads"] = 2
+    srv = e4.Server("c20", worker_class=sc["class"], workers=2, settings=settings, bind=sc["bind"], default_conf=True)
+    appdir = os.path.join(srv.dir, "appdir")
+    os.mkdir(appdir)
+    os.chmod(appdir, 0o755)
+    srv.write_conf(chdir=appdir)
+    run.count("masters_started_on_the_discovered_default_conf")
+    try:
+        srv.start()
+        master = srv.master_pid
+        w = srv.wait_workers(2, 25)
+        if not w:
+            return v, "workers did not boot: %s" % (srv.stderr()[-300:] + srv.error_log()[-300:]), info
+        try:
+            info["master_cwd"] = os.path.basename(os.readlink("/proc/%d/cwd" % master))
+        except OSError:
+            info["master_cwd"] = None
+        if info["master_cwd"] != "appdir":
+            return v, "the master did not move into the configured chdir", info
+        m0 = e4.proc_ids(master)
+        seen, first_seen = set(), {}
+
+        def check_all(gen):
+            for p in settled_workers(srv, e4, first_seen):
+                if p not in seen:
+                    seen.add(p)
+                    check_worker(run, e4, p, uid, gid, sc["initgroups"], gen, v, True)
+        check_all("initial/chdir-in-default-conf")
+        for n in (1, 2):
+            old = set(srv.worker_pids())
+            srv.signal(signal.SIGHUP)
+            t0 = time.monotonic()
+            done = False
+            while time.monotonic() - t0 < 15 and not done:
+                srv.reap()
+                ws = srv.worker_pids()
+                check_all("reload-%d/chdir-in-default-conf" % n)
+                done = bool(ws) and not (set(ws) & old) and all(p in seen for p in ws)
+                if not e4.alive(master):
+                    v.append(("master-stopped-at-reload", "HUP #%d with ./gunicorn.conf.py setting chdir: the master exited: %s" % (
+                        n, (srv.stderr()[-300:] + srv.error_log()[-300:]).strip().splitlines()[-3:])))
+                    return v, None, info
+                time.sleep(0.05)
+            if not done:
+                return v, "reload #%d did not replace the workers within 15 s (workers %s, before %s)" % (n, srv.worker_pids(), sorted(old)), info
+            run.count("reloads_with_chdir_in_the_discovered_conf")
+            if v:
+                v[:] = [(m, t + " | HUP #%d of a master that found ./gunicorn.conf.py by itself (no -c); the file sets chdir=%s, user=%r, "
+                         "group=%r; log: %s" % (n, "appdir", user, group, [ln for ln in (srv.error_log() + srv.stderr()).splitlines()
+                                                                            if "Hang up" in ln or "rror" in ln][-3:])) for m, t in v]
+                return v, None, info
+        ws = srv.worker_pids()
+        if ws:
+            os.kill(ws[0], signal.SIGKILL)
+            t0 = time.monotonic()
+            while time.monotonic() - t0 < 10:
+                srv.reap()
+                check_all("respawn-after-reload/chdir-in-default-conf")
+                now = srv.worker_pids()
+                if ws[0] not in now and len(now) >= len(ws) and all(p in seen for p in now):
+                    run.count("respawns_after_reload_with_chdir_in_the_discovered_conf")
+                    break
+                time.sleep(0.05)
+        r = e4.request(srv.addr, "/ids", timeout=5)
+        if r["outcome"] == "ok":
+            judge_app_ids(run, json.loads(e4.body_of(r["data"])[:-4]), uid, gid, sc["initgroups"], True, v, "chdir-in-default-conf-")
+        elif not v:
+            v.append(("worker-unreachable-after-privilege-drop", "after two reloads: request over %s bind -> %s %s" % (
+                sc["bind"], r["outcome"], r.get("err"))))
+        m1 = e4.proc_ids(master)
+        if m1 and (m1["Uid"] != m0["Uid"] or m1["Gid"] != m0["Gid"]):
+            v.append(("master-identity-changed", "master %d: %s, started as %s" % (master, m1, m0)))
+        elif m1:
+            run.count("master_identity_checks")
+        info["workers_checked"] = len(seen)
+        return v, None, info
+    finally:
+        srv.cleanup()
+
+
+DIRECTED = {"initgroups-refused": refused_initgroups_scenario, "restart-after-kill": restart_after_kill_scenario,
+            "master-in-group": master_in_group_scenario, "chdir-in-default-conf": default_conf_chdir_scenario}
+
+
 def run_scenario(run, e4, sc):
-    if sc.get("kind") == "initgroups-refused":
-        return refused_initgroups_scenario(run, e4, sc)
+    if sc.get("kind") in DIRECTED:
+        if os.geteuid() != 0:
+            return [], "not running as root", {}
+        return DIRECTED[sc["kind"]](run, e4, sc)
     v = []
     info = {}
     if os.geteuid() != 0:
@@ -453,7 +741,28 @@ def scenarios(tier, seed):
     u, g = rng.choice([(["www-data", 33], ["nogroup", 65534]), (["nobody", 65534], ["nogroup", 65534]), (["nobody", 65534], ["www-data", 33])])
     out.append({"kind": "initgroups-refused", "user": u, "group": g, "initgroups": True, "class": classes[(seed + 1) % 4],
                 "bind": rng.choice(["tcp", "unix"]), "idx": n0 + 5, "source": "file"})
+    # directed histories added after seeded round 4 (short: one or two generations each)
+    pairs = [(["www-data", 33], ["www-data", 33]), (["nobody", 65534], ["nogroup", 65534]), (["33", 33], ["33", 33]),
+             (["www-data", 33], ["nogroup", 65534])]
+    k = n0 + 6
+    for i, wc in enumerate(classes if tier != "quick" else [classes[(seed + 3) % 4]]):
+        u, g = pairs[(seed + i) % 4]
+        out.append({"kind": "restart-after-kill", "user": u, "group": g, "initgroups": False, "class": wc, "bind": "unix", "idx": k,
+                    "source": "file"})
+        k += 1
+    for i, wc in enumerate(classes if tier != "quick" else [classes[seed % 4]]):
+        # (accounts whose own group is the configured one: the master's primary group equals the configured gid)
+        u, g = [(["www-data", 33], ["www-data", 33]), (["nobody", 65534], ["nogroup", 65534]), (["33", 33], [33, 33])][(seed + i) % 3]
+        out.append({"kind": "master-in-group", "user": u, "group": g, "initgroups": True, "class": wc,
+                    "bind": "unix" if (seed + i) % 2 else "tcp", "idx": k, "source": "file"})
+        k += 1
+    for i, wc in enumerate(classes if tier != "quick" else [classes[(seed + 1) % 4]]):
+        u, g = pairs[(seed + i + 1) % 4]
+        out.append({"kind": "chdir-in-default-conf", "user": u, "group": g, "initgroups": bool((seed + i) % 2), "class": wc,
+                    "bind": "tcp" if (seed + i) % 2 else "unix", "idx": k, "source": "file", "default_conf": True})
+        k += 1
     if tier != "quick":
+        n0 = k - 6
         for i, wc in enumerate(classes):
             out.append({"kind": "initgroups-refused", "user": ["www-data", 33], "group": ["nogroup", 65534], "initgroups": True,
                         "class": wc, "bind": "unix" if i % 2 else "tcp", "idx": n0 + 6 + i, "source": "file"})
@@ -490,6 +799,10 @@ def shard(sh):
     return run
 
 
+def plan(tier, seed):
+    return [{"scenario": sc, "seed": seed, "tier": tier} for sc in scenarios(tier, seed)]
+
+
 def main(tier, seed):
     run = Run(PROP, tier, seed, "exploration", RULE)
     if os.geteuid() != 0:
@@ -506,12 +819,26 @@ def main(tier, seed):
                 "class/eventlet", "source/file", "source/env", "source/cli", "reloads_changing_the_group", "refused_reload_histories",
                 "uid_without_account_checks", "application_group_checks", "application_id_checks_after_upgrade",
                 "masters_started_on_the_discovered_default_conf", "reloads_moving_the_working_directory",
-                "upgrades_after_the_working_directory_moved", "refused_initgroups_histories")
-    shards = [{"scenario": sc, "seed": seed, "tier": tier} for sc in scenarios(tier, seed)]
+                "upgrades_after_the_working_directory_moved", "refused_initgroups_histories",
+                # directed histories: restart over the socket file of a killed server; master started in the configured group;
+                # chdir set by the discovered ./gunicorn.conf.py from the start, then two reloads and a respawn
+                "restarts_over_a_stale_socket_file", "unix_socket_owner_checks_after_restart", "unix_socket_connects_as_configured_user",
+                "generation/restart-after-kill", "masters_started_in_the_configured_group",
+                "workers_of_a_master_in_the_configured_group", "generation/initial/master-in-group",
+                "generation/respawn/master-in-group", "reloads_with_chdir_in_the_discovered_conf",
+                "generation/reload-1/chdir-in-default-conf", "generation/reload-2/chdir-in-default-conf",
+                "respawns_after_reload_with_chdir_in_the_discovered_conf")
+    shards = plan(tier, seed)
     run.assumptions = [
         "without initgroups the supplementary groups are not judged (the statement specifies them only with initgroups)",
         "when only one of user/group is configured the other is the master's own effective id (the setting's default)",
         "needs real root and the accounts www-data(33), nobody(65534), group nogroup(65534)",
+        "restart-after-kill: the socket file is judged by stat() (uid:gid = configured ids, as in the upgrade histories) with umask 007; "
+        "that a process with exactly the configured ids can connect is checked in addition",
+        "master-in-group: the master is started through a preexec function doing setgroups([0, 1, 4]); setgid(configured gid) (uid stays "
+        "0); the workers' Groups must equal the account database's list for the configured user plus the configured gid",
+        "chdir-in-default-conf: a worker is judged once it reports post_worker_init or has been a child of the master for 1.5 s "
+        "(a generation started without the configuration file has no hooks that could report)",
         "a refused initgroups() is produced by a post_fork hook of the configuration file that replaces os.initgroups in the worker by a function raising PermissionError(EPERM); setgid()/setuid() are the real ones",
     ]
     common.run_sharded(run, shards, timeout=900 if tier == "quick" else 3600, nproc=min(12, common.NCPU))
